@@ -327,6 +327,8 @@ void gen(uint64_t seed, int tier, sim::Plan &p) {
     p.seed = seed;
     hgen::sched_config(r, p, false, false, false, false, -1);
     int nt = (int)r.range(1, r.chance(0.3) ? 24 : 8);
+    bool many = r.chance(tier ? 0.04 : 0.02); // scale run: the timed queue has to grow several times (7 -> 14 -> ... )
+    if (many) nt = (int)r.range(100, 300);
     p.cfg["ntasks"] = nt;
     p.cfg["max_resched"] = r.range(0, 3);
     p.cfg["alloc_realloc"] = r.chance(0.8);
@@ -350,6 +352,7 @@ void gen(uint64_t seed, int tier, sim::Plan &p) {
         p.ops.push_back(b);
     }
     int nops = (int)r.range(5, tier ? 150 : 60);
+    if (many) nops = (int)r.range(300, 700);
     static const std::vector<int64_t> deltas = {0, 1, 2, 7, 100, 1000, 1000000, 3600000000000ll};
     for (int i = 0; i < nops; i++) {
         sim::Op op;
